@@ -79,8 +79,14 @@ func request(id int, size int) *stun.Message {
 
 // response builds a success response for id carrying a unique payload.
 func response(id int, serial int, size int) []byte {
+	// The client matches on the 96-bit id alone (C12: "an incoming message is delivered to the
+	// handler of the in-flight transaction whose id equals the message's"), so the class and the
+	// method vary with the serial: mostly success responses, also error responses, indications
+	// and requests, Binding and other methods.
+	class := []uint8{2, 2, 3, 2, 1, 2, 0, 3}[serial%8]
+	method := []uint16{1, 1, 1, 3, 0xFFF}[serial%5]
 	if size == 20 {
-		return ref.Encode(1, 2, txID(id), nil) // header-only response
+		return ref.Encode(method, class, txID(id), nil) // header-only
 	}
 	payload := []byte(fmt.Sprintf("resp-%d-%d", id, serial))
 	attrs := []ref.EAttr{{Type: 0x7F02, Value: payload}}
@@ -92,7 +98,7 @@ func response(id int, serial int, size int) []byte {
 		attrs = append(attrs, ref.EAttr{Type: 0x7F03, Value: v})
 	}
 
-	return ref.Encode(1, 2, txID(id), attrs)
+	return ref.Encode(method, class, txID(id), attrs)
 }
 
 // hev is one handler invocation as observed.
